@@ -344,9 +344,9 @@ Wt(k) == IF SimMode THEN 1..k ELSE {1}
 Next ==
   \/ \E n \in 1..MaxApp : DoAppend(n)
   \/ \E off \in ReadOffs : \E n \in ReadLens(off) : DoRead(off, n)
-  \/ \E p \in Positions : \E w \in Wt(4) : DoSetOffset(p)
+  \/ \E p \in Positions : \E w \in Wt(2) : DoSetOffset(p)
   \/ \E p \in IF SimMode THEN {(disc + Len(log)) \div 2, F * (Len(log) \div F)} ELSE Positions : DoDiscard(p)
-  \/ \E w \in Wt(3) : DoFlush
+  \/ \E w \in Wt(IF Retry THEN 6 ELSE 3) : DoFlush      \* (retryable sync: Flush without Sync keeps the flushed window buffered)
   \/ \E w \in Wt(2) : DoSync
   \/ DoReopen
   \/ DoSwitchRO \/ DoCopy
